@@ -241,7 +241,9 @@ class Runner:
         return [[key_id(k), self.enc(k, v)] for k, v in d.items()]
 
     def callback(self, totals, history, latest):
-        self.cblog.append([self.enc_totals(totals), self.enc_kw(latest)])
+        # snapshot now (the dicts are live references); result objects get their tokens only after the
+        # device call returns, so `latest` is encoded at the end
+        self.cblog.append([self.enc_totals(totals), list(latest.items())])
 
     def result_token(self, r):
         if self.mode == "dq":
@@ -378,7 +380,8 @@ class Runner:
                 res_ok = "results" not in tr.totals
         return {"ops": self.ops, "active": bool(tr.active), "totals": self.enc_totals(tr.totals),
                 "history": [[key_id(k), [self.enc(k, v) for v in vs]] for k, vs in tr.history.items()],
-                "latest": self.enc_kw(tr.latest), "cblog": self.cblog, "results_total_ok": res_ok,
+                "latest": self.enc_kw(tr.latest),
+                "cblog": [[t, [[key_id(k), self.enc(k, v)] for k, v in l]] for t, l in self.cblog], "results_total_ok": res_ok,
                 "n_numeric_results": len([v for v in tr.history.get("results", []) if isinstance(v, Number)])}
 
 
